@@ -118,7 +118,51 @@ Section Lookup.
     assert (K : In y (filter (fun t => contains (trange t) q) ts)) by (apply filter_In; split; [exact Hy|rewrite Er; exact Hr]).
     rewrite H in K. destruct K.
   Qed.
+  (* the same for any target of a list whose ranges are pairwise distinct *)
+  Lemma entries_of ts t : NoDup (map trange ts) -> In t ts ->
+    filter (fun e : range * A => range_eqb (fst e) (trange t)) (flat_map g ts) = g t.
+  Proof.
+    induction ts as [|x ts IH]; intros Hnd Hin; [destruct Hin|]. cbn [map] in Hnd. inversion Hnd as [|? ? Hx Hnd']; subst.
+    cbn [flat_map]. rewrite filter_app. destruct Hin as [->|Hin].
+    - rewrite (filter_all _ (g t)), (filter_none _ (flat_map g ts)); [apply app_nil_r| |].
+      + intros e He. apply in_flat_map in He. destruct He as [y [Hy He]]. destruct (range_eqb (fst e) (trange t)) eqn:Er; [|reflexivity].
+        apply range_eqb_eq in Er. rewrite (g_key _ _ He) in Er. exfalso. apply Hx. rewrite <- Er. apply in_map. exact Hy.
+      + intros e He. rewrite (g_key _ _ He). apply range_eqb_refl.
+    - rewrite (filter_none _ (g x)); [exact (IH Hnd' Hin)|].
+      intros e He. destruct (range_eqb (fst e) (trange t)) eqn:Er; [|reflexivity]. apply range_eqb_eq in Er. rewrite (g_key _ _ He) in Er.
+      exfalso. apply Hx. rewrite Er. apply in_map. exact Hin.
+  Qed.
+
+  Lemma lookup_in ts t : NoDup (map trange ts) -> In t ts ->
+    lookup_range (trange t) (rev (flat_map g ts)) = match g t with e :: _ => Some (snd e) | [] => None end.
+  Proof.
+    intros Hnd Hin. unfold lookup_range. rewrite find_hd_filter, filter_rev', (entries_of ts t Hnd Hin).
+    pose proof (g_one t) as L. destruct (g t) as [|e [|e2 l]]; cbn [List.length] in L; [reflexivity|reflexivity|lia].
+  Qed.
 End Lookup.
+
+Lemma distinct_nodup p : distinct_ranges p = true -> NoDup (map trange (targets p)).
+Proof.
+  unfold distinct_ranges. generalize (map trange (targets p)). induction l as [|r l IH]; intros H; [constructor|].
+  apply andb_prop in H. destruct H as [H1 H2]. constructor; [|exact (IH H2)].
+  intros Hin. apply Bool.negb_true_iff in H1. assert (K : existsb (range_eqb r) l = true) by (apply existsb_exists; exists r; split; [exact Hin|apply range_eqb_refl]).
+  rewrite K in H1. discriminate.
+Qed.
+
+(* where at least one target contains the position, the traversal finds one of them *)
+Lemma hover_on_some_target p q : tree_safe p = true -> nested p = true -> at_pos p q <> [] ->
+  exists t, In t (at_pos p q) /\ hover_on p q = Ok (Some (hov t)).
+Proof.
+  intros Hs Hn Ha. destruct (hover_on p q) as [[h|]|u|w] eqn:E.
+  - destruct (hover_on_sound _ _ _ E) as [Hin Hc]. rewrite <- hov_targets in Hin. apply in_map_iff in Hin. destruct Hin as [t' [<- Ht']].
+    rewrite hrange_hov in Hc. exists t'. split; [apply at_pos_in; split; assumption|reflexivity].
+  - exfalso. destruct (at_pos p q) as [|t l] eqn:Et; [apply Ha; reflexivity|].
+    assert (K : In t (at_pos p q)) by (rewrite Et; left; reflexivity). apply at_pos_in in K. destruct K as [K1 K2].
+    pose proof (hover_on_complete p q Hn E (hov t)) as C. rewrite <- hov_targets, hrange_hov in C.
+    rewrite (C (in_map hov _ _ K1)) in K2. discriminate.
+  - exfalso. exact (hover_on_no_err _ _ _ E).
+  - exfalso. exact (hover_on_no_panic _ _ _ Hs E).
+Qed.
 
 Definition var_entry (t : target) : list (range * vardecl) := match t with TVar r _ (Some d) => [(r, d)] | _ => [] end.
 
@@ -197,4 +241,29 @@ Theorem navigation_nothing p pd perm cs txt q :
 Proof.
   intros Hs Hc Ha. unfold handle_hover, handle_definition, goto_definition. cbn [doc_prog doc_check].
   rewrite (hover_on_nothing p q Hs Ha). cbn [bind]. split; reflexivity.
+Qed.
+
+(* positions lying in SEVERAL targets (the end of one token is the start of the next: `[$a$b]`; Range.Contains
+   includes both ends): the answer is that of one of them *)
+Theorem navigation_some p pd perm cs txt q :
+  tree_safe p = true -> nested p = true -> distinct_ranges p = true -> check_program p pd perm = Ok cs -> at_pos p q <> [] ->
+  exists t, In t (at_pos p q)
+            /\ handle_hover (mkdoc txt p cs) q = Ok (hover_of t) /\ handle_definition (mkdoc txt p cs) q = Ok (definition_of t).
+Proof.
+  intros Hs Hn Hd Hc Ha. destruct (check_program_resolutions _ _ _ _ Hc) as [Hv Hf].
+  destruct (hover_on_some_target p q Hs Hn Ha) as [t [Ht Hh]]. exists t. split; [exact Ht|].
+  assert (Hin : In t (targets p)) by (apply at_pos_in in Ht; exact (proj1 Ht)).
+  pose proof (distinct_nodup p Hd) as Hnd.
+  unfold handle_hover, handle_definition, goto_definition. cbn [doc_prog doc_check]. rewrite Hh. cbn [bind].
+  destruct t as [r n od|r n ctx]; cbn [hov].
+  - rewrite Hv. change (var_entries (targets p)) with (flat_map var_entry (targets p)).
+    pose proof (lookup_in var_entry var_entry_key var_entry_one (targets p) (TVar r n od) Hnd Hin) as L. cbn [trange] in L.
+    rewrite !L. cbn [var_entry].
+    destruct od as [d|]; cbn [snd hover_of definition_of]; [|split; reflexivity].
+    destruct (target_decl p r n d Hin) as [Hdd Hnm]. destruct (safe_decl p d n Hs Hdd Hnm) as (nr & ty & tr & En & Et).
+    rewrite En, Et. split; reflexivity.
+  - rewrite Hf. change (fn_entries (targets p)) with (flat_map fn_entry (targets p)).
+    pose proof (lookup_in fn_entry fn_entry_key fn_entry_one (targets p) (TFn r n ctx) Hnd Hin) as L. cbn [trange] in L.
+    rewrite !L. cbn [fn_entry hover_of definition_of].
+    destruct (find_builtin n) as [b|]; [destruct (ctx_eqb (b_ctx b) ctx)|]; cbn [snd]; split; reflexivity.
 Qed.
